@@ -130,3 +130,42 @@ func vH_C20_handlers() {
 	}
 	vReach("C20.handlers.end")
 }
+
+// ---- two requests served at the same time: shared-access (lockset) discipline ----
+// Two middleware invocations (and the /reqcount handler) run as logical threads on the same limiter and the same
+// middleware value. Every access of the repository's code to memory that both requests can reach (the limiter, the
+// variables captured by the middleware closure, package-level variables) must happen under a common lock whenever one
+// of the accesses is a write; anything else is a data race between concurrent requests.
+
+func init() {
+	vHarnesses["vH_C20_concurrent"] = vH_C20_concurrent
+}
+
+func vH_C20_concurrent() {
+	maxReq := vInt("max", 0, 3)
+	itvlMS := vInt("itvlMS", 1, 3600000)
+	t0 := vInt("t0", 0, 1<<40)
+	il, err := NewIPRequestLimiter(maxReq, time.Duration(itvlMS)*time.Millisecond, time.UnixMilli(int64(t0)), "", "")
+	vAssert("C20.concurrent.new-ok", err == nil)
+	s := &Server{reqLimiter: il}
+	next := &vNext{}
+	mw := NewLimiterMiddleware("Livesim2-Requests", il)(next)
+	// per-request objects are created before the threads start (they are not shared: each is used by one thread only)
+	var ws [3]*vRW
+	var rs [3]*http.Request
+	for i := 0; i < 3; i++ {
+		ip := vAtom(fmt.Sprintf("ip%d", i), 2)
+		rs[i] = &http.Request{Header: http.Header{"X-Forwarded-For": []string{ip}}}
+		ws[i] = &vRW{hdr: http.Header{}}
+	}
+	vNowMS = t0 + vInt("dt0", 0, 1<<32)
+	vThread(1)
+	mw.ServeHTTP(ws[0], rs[0])
+	vThread(2)
+	mw.ServeHTTP(ws[1], rs[1])
+	vThread(3)
+	s.reqCountHandlerFunc(ws[2], rs[2])
+	vThread(0)
+	vAssert("C20.concurrent.lock-released", !vHeld(&il.mux))
+	vReach("C20.concurrent.end")
+}
